@@ -597,7 +597,18 @@ def tab_snipkeys(p, res):
     if comp and len([n for n in f.body_nodes() if isinstance(n, ast.Return)]) == 1:
         res.ok('parse_snippets: every name of a multi-key gets the value of that key (comprehension)')
     else:
-        check_table(p, res, 'TAB-SNIPKEYS', 'snippets.parse_snippets', 'every alternative of a `a|b|c` key must be registered, and a later table entry replaces an earlier one (plain assignment)')
+        def fixed_alternatives(p, f):
+            """the alternatives of a key are picked by constant index (first / last) instead of being iterated: the others are lost"""
+            from .. import shape
+            defs = shape.defs_of(f.node, params=f.params)
+            iterated = any(isinstance(n, (ast.For, ast.comprehension)) and '.split(' in src_of(shape.expand(n.iter, defs)) for n in ast.walk(f.node))
+            for n in f.body_nodes():
+                if isinstance(n, ast.Subscript) and isinstance(n.ctx, ast.Store) and isinstance(n.slice, ast.Subscript) \
+                        and isinstance(p.try_const(f, n.slice.slice), int) and '.split(' in src_of(shape.expand(n.slice.value, defs)) and not iterated:
+                    return n, src_of(p.enclosing_stmt(f, n)), 'only the alternative at a fixed index of a `a|b|c` key is registered: the other names of the key are no longer snippets'
+            return None
+        check_table(p, res, 'TAB-SNIPKEYS', 'snippets.parse_snippets', 'every alternative of a `a|b|c` key must be registered, and a later table entry replaces an earlier one (plain assignment)',
+                    detectors=(fixed_alternatives,))
     # the four derived tables come from parse_snippets applied to exactly one raw table each
     sm = p.module('snippets')
     for name, raw in (('markup_snippets', 'raw_markup_snippets'), ('stylesheet_snippets', 'raw_stylesheet_snippets'), ('xsl_snippets', 'raw_xsl_snippets'), ('pug_snippets', 'raw_pug_snippets')):
